@@ -16,8 +16,10 @@ if not tot['violations']:
     sys.exit(3)
 v = min(tot['violations'], key=lambda x: len(x['plan']['events']))
 vc = [v['violation'][k] for k in ('property', 'invariant', 'op', 'detail')]
-small, v2 = kernel.minimise(mod, v['plan'], vc, budget_s=40)
+small, v2, pre = kernel.minimise(pid, mod, v['plan'], vc, prefix=v.get('prefix'), budget_s=40)
 small = dict(small, violation=v2)
+if pre:
+    small['prefix'] = pre
 small['header'] = dict(small['header'], tree=boot.tree_id(), only_class=cls)
 os.makedirs(os.path.join(boot.VERIF, 'findings'), exist_ok=True)
 path = os.path.join(boot.VERIF, 'findings', f'{pid}-{name}.json')
